@@ -12,6 +12,7 @@ import (
 
 	"verif/harness/core"
 	"verif/harness/gen"
+	"verif/harness/spec"
 )
 
 // C14 — parsers, profiles and read-only URL values are safe for concurrent use.
@@ -30,6 +31,9 @@ type Case14 struct {
 	Canon   bool     `json:"canon,omitempty"`
 	Bases   []B      `json:"bases"`
 	Touched []bool   `json:"touched"` // base i had SearchParams() and getters called after parsing (lazily created state exists)
+	// Setup[i]: operations applied sequentially to base i before it is shared (setters; "resolve"
+	// replaces the base by base.Parse(value)): a read-only URL may have any history behind it
+	Setup [][]Op `json:"setup,omitempty"`
 	Scripts [][]Op14 `json:"scripts"` // one script per goroutine
 }
 
@@ -112,6 +116,20 @@ func parseBases(c Case14, p url.Parser, touch bool) []*url.Url {
 			out = append(out, nil)
 			continue
 		}
+		if i < len(c.Setup) {
+			for _, op := range c.Setup[i] {
+				switch op.Kind {
+				case "set":
+					ApplySetter(u, op.Setter, string(op.Value))
+				case "resolve":
+					if v, verr := u.Parse(string(op.Value)); verr == nil && v != nil {
+						u = v
+					}
+				case "clone":
+					u = u.Clone()
+				}
+			}
+		}
 		if touch && i < len(c.Touched) && c.Touched[i] {
 			u.SearchParams()
 			_ = result14(u, nil)
@@ -181,16 +199,6 @@ func Check14(c Case14, r *core.Rec) {
 		r.Vacuous()
 		return
 	}
-	// expected results: every operation alone, on private copies
-	expected := make([][]string, len(c.Scripts))
-	for g, script := range c.Scripts {
-		for _, o := range script {
-			pp := buildParser14(c)
-			pb := parseBases(c, pp, true)
-			live := liveBases(c, pb)
-			expected[g] = append(expected[g], run14(c, pp, live.urls, remap(o, live)))
-		}
-	}
 	p := buildParser14(c)
 	all := parseBases(c, p, true)
 	live := liveBases(c, all)
@@ -253,6 +261,7 @@ func Check14(c Case14, r *core.Rec) {
 		}
 	}
 
+	after := tableFingerprint()
 	// (1) race detector
 	if RaceEnabled {
 		if grown := raceLogSize(); grown > raceBefore {
@@ -260,7 +269,19 @@ func Check14(c Case14, r *core.Rec) {
 			return
 		}
 	}
-	// (2) sequential equivalence
+	// (2) sequential equivalence. The expected results are computed AFTER the concurrent phase, every
+	// operation alone on private copies (fresh parser from the same options, fresh bases with the same
+	// history): computing them first would warm up any lazily initialised shared state and hide a
+	// first-use race.
+	expected := make([][]string, len(c.Scripts))
+	for g, script := range c.Scripts {
+		for _, o := range script {
+			pp := buildParser14(c)
+			pb := parseBases(c, pp, true)
+			plive := liveBases(c, pb)
+			expected[g] = append(expected[g], run14(c, pp, plive.urls, remap(o, plive)))
+		}
+	}
 	for g := range c.Scripts {
 		for i := range c.Scripts[g] {
 			if i >= len(got[g]) {
@@ -274,7 +295,7 @@ func Check14(c Case14, r *core.Rec) {
 		}
 	}
 	// (3) table immutability
-	if after := tableFingerprint(); after != before {
+	if after != before {
 		r.Failf("a package-level table changed during the concurrent program")
 	}
 }
@@ -300,7 +321,7 @@ func remap(o Op14, l liveSet) Op14 { return o }
 
 // ---- generator ----------------------------------------------------------------------------------------
 
-var c14Bases = []string{"http://h/p?a=1&b=2#f", "http://u:p@h:8/a/b/c?k=v#f", "foo://h/p?x=y", "file:///C:/d/e?q=1", "http://1.2.3.4/x?y", "http://[::1]/?z", "foo:/p/q?r", "http://example.com/a/b/../c?d=e&f", "https://faß.de/ä?ö#ü", "ws://h/", "http://h/a//b/"}
+var c14Bases = []string{"file:///C:/d/e?q=1#f", "foo:opaque?q#f", "mailto:a@b  ?x", "http://h/p?a=1&b=2#f", "http://u:p@h:8/a/b/c?k=v#f", "foo://h/p?x=y", "file:///C:/d/e?q=1", "http://1.2.3.4/x?y", "http://[::1]/?z", "foo:/p/q?r", "http://example.com/a/b/../c?d=e&f", "https://faß.de/ä?ö#ü", "ws://h/", "http://h/a//b/"}
 var c14Refs = []string{"x", "/y", "../z", "?q=1", "#f", "", "//other/p", "http://abs/", "./a/b", "C|/x", "\\\\h\\p", " a b ", "%zz", "é", "//[::2]/", "//9.8.7.6/", "a?b#c"}
 var c14Inputs = []string{"http://example.com/", "HTTP://EXAMPLE.com:80/a/../b?x#y", "foo:bar", "file:///C|/x", "http://[1:0:0:2::3]/", "http://0x7f.1/", "http://faß.de/", "not a url", "http://h:99999/", "www.example.com/path", "http://a b/", "http://h/%zz?%zz#%zz", "http://u:p@h/", "//h", "http://h/?b=2&a=1&a=0", "https://日本語.jp/パス"}
 
@@ -335,6 +356,22 @@ func Gen14(t *rapid.T) Case14 {
 			c.Bases = append(c.Bases, B(gen.Pick(t, "base", c14Bases)))
 		}
 		c.Touched = append(c.Touched, rapid.IntRange(0, 1).Draw(t, "touched") == 1)
+		var setup []Op
+		if rapid.IntRange(0, 2).Draw(t, "hasSetup") == 0 {
+			ns := rapid.IntRange(1, 3).Draw(t, "nsetup")
+			for j := 0; j < ns; j++ {
+				switch rapid.IntRange(0, 3).Draw(t, "setupKind") {
+				case 0:
+					setup = append(setup, Op{Kind: "resolve", Value: B(gen.Pick(t, "setupRef", []string{"#f", "?q", "", "x", "/y", "#", "../z?w"}))})
+				case 1:
+					setup = append(setup, Op{Kind: "clone"})
+				default:
+					w := rapid.IntRange(0, spec.NumSetters-1).Draw(t, "setupSetter")
+					setup = append(setup, Op{Kind: "set", Setter: w, Value: B(gen.Pick(t, "setupValue", gen.SetterPools[w]))})
+				}
+			}
+		}
+		c.Setup = append(c.Setup, setup)
 	}
 	ng := rapid.IntRange(2, 8).Draw(t, "goroutines")
 	kinds := []string{"resolve", "resolve", "resolve", "getters", "getters", "clone", "parse", "parseref", "encode", "derive"}
@@ -372,7 +409,7 @@ func Gen14(t *rapid.T) Case14 {
 
 var P14 = core.Register(core.Prop[Case14]{
 	ID: "C14",
-	Rule: "generated concurrent programs: one shared parser (package-level functions, default parser, one of the four predefined profiles, or 1..4 generated options), 1..3 shared base URLs parsed with it (half never touched after parsing, so lazily created state does not exist yet), 2..8 goroutines released from one barrier, each with a script of 1..6 read-only operations (Parse, ParseRef with a shared base string, (*Url).Parse on a shared base, all pure getters of a shared base, Clone of a shared base, PercentEncodeString with shared named sets, Set/Clear derivations from shared named sets); " +
+	Rule: "generated concurrent programs: one shared parser (package-level functions, default parser, one of the four predefined profiles, or 1..4 generated options), 1..3 shared base URLs parsed with it, a third of them with a sequential history of 1..3 setters / resolutions / clones behind them, half never touched after that (so lazily created state does not exist yet), 2..8 goroutines released from one barrier, each with a script of 1..6 read-only operations (Parse, ParseRef with a shared base string, (*Url).Parse on a shared base, all pure getters of a shared base, Clone of a shared base, PercentEncodeString with shared named sets, Set/Clear derivations from shared named sets); " +
 		"oracle (test binary built with -race): (1) the race detector's log does not grow during the program, (2) every operation's result equals the result of the same operation run alone on private copies, (3) fingerprints of every exported package-level table and behavioural probes of the unexported ones are unchanged; " +
 		"non-trivial = at least 2 goroutines use the same base URL and at least one of them resolves against it; distinct by hash of the program",
 	Gen:   Gen14,
